@@ -73,7 +73,7 @@ claim("C02", "other",
       "The representation invariant in_flight == |packet_log| is kept by all 7 mutation sites of the 6 writers (closed writer sets); NAK / SRTLA-ACK effects are all under `found`; "
       "the cumulative ACK has no effect iff ack <= highwater, keeps seq > ack on the slow path, removes highwater+1..=ack on the fast path, and is applied to every link; "
       "every insert is guarded by or repairs `seq > highwater`; arrival link first, then first other holder, then stop; global +1 on every link; registration at flush with the "
-      "routed sequence number. Found defect F2 (late-registered sequence leaked by the fast path), repaired.",
+      "routed sequence number, which stays paired with its datagram (the batch queue's three parallel vectors are pushed, fully drained and cleared together); both resets empty the log, zero the counter and rewind the mark on every path and both teardown entry points always reach the core reset. Found defect F2 (late-registered sequence leaked by the fast path), repaired.",
       "DESIGN.md 5 C02", "Equality with a set model over histories, 31-bit wrap and |log| < 2^31 are not decided.")
 claim("C05", "proof",
       "CFG shape rules (never-both, back-edge-only-if), who-may-call, guard entailment, symbolic abstract interpretation of the charge, exact formula equivalence of the tracker predicates",
@@ -89,13 +89,13 @@ claim("C08", "other",
       "{connected, last_received, conn_timeout_ms, reconnection.*} and for a connected link equals now - last_received >= conn_timeout_ms; back-off in [5000,120000], "
       "1 s initial cadence after the grace deadline, back-off cadence afterwards, every attempt stamped before the teardown; REG3 clears pre-registration state before "
       "connected := true (zero in-flight, cleared log, Warming), resets restore window 20000; the per-link timeout copy is refreshed from the configuration in a full loop "
-      "that dominates every housekeeping pass inside the event loop. Found defect F7 (stale 5 s copy), repaired.",
+      "that dominates every housekeeping pass inside the event loop; every datagram that is not a handshake reply refreshes last_received on every path of the receive handler; the retry stamp is only ever set to a current time by the attempt recorder and the full reset. Found defect F7 (stale 5 s copy), repaired.",
       "DESIGN.md 5 C08", "Timed liveness ('within 30 s', 'retries forever', survivors' throughput) is not decided.")
 claim("C16", "other",
       "interval + symbolic (float) abstract interpretation of tick() against the symbols prev / obs with interval-coefficient products, path-condition guards for the bootstrap branch and the loss latch, sentinel-exclusivity rule for the seed guard",
       "Every target store lies in [100k, 200M]; only the no-RTT branch forces the floor and it returns; per arm: Bootstrap/Holding = prev, Climbing in [prev, prev+6%] and <= max(prev, 2*obs), "
       "BackingOff in [max(85% prev, min(obs, prev)), prev], Drain = 75% prev only under prev_state != Drain, final clamp; latch set only with ewma > 0.55 sustained >= 4000 ms and cleared only "
-      "below 0.25, sustain clock reset whenever ewma <= 0.55; the seed guard is falsified by every post-seed store. Found defect F5 (re-seed from the floor), repaired.",
+      "below 0.25, sustain clock reset whenever ewma <= 0.55; the loss average is stamped on every update path, snapped to the sample only by the first update and otherwise moved by (sample - average) * (1 - exp(-dt/tau)); tick_all reaches the per-link garbage collection on every pass and keeps exactly the ids it ticked; the seed guard is falsified by every post-seed store. Found defect F5 (re-seed from the floor), repaired.",
       "DESIGN.md 5 C16", "EWMA numerics and strict positivity of the RTT average are not decided; float comparisons are treated as monotone real arithmetic.")
 
 claim("C09", "other",
@@ -110,7 +110,7 @@ claim("C13", "other",
       "The latch engages only under is_stalled | (pulled & proof fully stale) from the un-latched state, and is_stalled == connected & backlog >= min & proof != 0 & stale; the effective window formula and its "
       "ceiling; release only with proof fresh, latched, not stalled and >= 2 x window since the dwell began; every decision with non-fresh proof or a re-engage restarts the dwell; pull then latch are driven for "
       "every link on every guard-on pass; the pull is set only under is_briefly_silent and released only under spoke | !connected. D7 reports the reproduced defect F6 (release predicate reads RTT state that "
-      "cross-link ACK handlers write) as a KNOWN-FINDING.",
+      "cross-link ACK handlers write) as a KNOWN-FINDING. Never blind: the C03 gate chain (gated only while a carrier test has a witness; every witness of every carrier test is itself un-gated and admitted by both selectors) is decided under C13 as well.",
       "DESIGN.md 5 C13", "The timed-trace consequences follow by induction from the single-step guards (stated, not derived).")
 
 claim("C07", "other",
@@ -120,7 +120,7 @@ claim("C07", "other",
       "the id is written only by handle_reg2, under len >= 258 and pending == Some(arrival uplink), from bytes [2,258), freeing the slot and arming one broadcast that the driver emits once and disarms; "
       "every REG1 / registration REG2 builder call takes self.srtla_id; connected := true only in the REG3 arm (type exactly 0x9202) on the link whose conn_id tagged the datagram; REG_ERR frees the slot on "
       "every path; the abandon condition is exactly pending & deadline != 0 & now >= deadline and runs first in housekeeping; each frame leaves on the socket of the uplink the manager named and the broadcast "
-      "loop visits the whole slice without early exit.",
+      "loop visits the whole slice without early exit; a REG_NGP that arrives during the start-up probe wait never selects a REG1 target (the probing phase may then clear the shared deadline field).",
       "DESIGN.md 5 C07", "Reachable-state exploration under adversarial packet order (the property's bounded-history quantifier) is not performed; the clauses are the inductive step guards. Liveness ('so a new attempt can start') is not decided.")
 claim("C15", "proof",
       "panic reachability over the resolved call graph discharged by interval / length / relational abstract interpretation (bounds, slice ranges, copy lengths, arithmetic overflow), loop-guard path conditions for the NAK bound, layout tables extracted from builders and parsers by value reconstruction and compared field by field",
